@@ -60,7 +60,7 @@ def _run_case(case: dict) -> dict:
     from mon.fnlib import trans_b as tb
 
     rng = core.rng_for(case["seed"])
-    g = gen(rng, untranslatable=case["untranslatable"])
+    g = gen(rng, untranslatable=case["untranslatable"], magnitudes=0.3)
     spec, feats = g["spec"], g["features"]
     module_state = not case["untranslatable"] and rng.random() < 0.3
     if module_state:
@@ -107,9 +107,10 @@ def _run_case(case: dict) -> dict:
 
     pv_before = dict(model.get_parameter_values())
     n = len(ref.variables)
-    states = [[round(rng.uniform(0.2, 3.0), 3) for _ in range(n)] for _ in range(4)]
+    sc = g.get("state_scale", 1.0)
+    states = [[round(rng.uniform(0.2, 3.0), 3) * sc for _ in range(n)] for _ in range(4)]
     times = [0.0, round(rng.uniform(0.1, 3.0), 2), 1.0, 2.5]
-    rs_jobs: list[tuple[str, list | None, str, list, list]] = []
+    rs_jobs: list[tuple[str, list | None, str, list, list, list]] = []
     for lg, fp in plan:
         tag = f"{lg}{'+free' if fp else ''}"
         try:
@@ -129,9 +130,10 @@ def _run_case(case: dict) -> dict:
         if fp:
             m2.update_parameters(dict(zip(fp, extra)))
         expected = [list(m2(t, s)) for t, s in zip(times, states)]
+        scales = [core.term_scales(m2, t, s) for t, s in zip(times, states)]
         calls = [(t, s, extra) for t, s in zip(times, states)]
         if lg == "rs":
-            rs_jobs.append((tag, fp, code, calls, expected))
+            rs_jobs.append((tag, fp, code, calls, expected, scales))
             continue
         try:
             if lg == "py":
@@ -148,7 +150,7 @@ def _run_case(case: dict) -> dict:
                 # '= *variables' -> '= variables') must be inside the Julia subset and return the model's values
                 try:
                     twin = repair_julia(code, gens["py"](rm.build(spec), free_parameters=fp))
-                    if twin is not None and compare(lang.run_jl(twin, calls), expected, n) is None:
+                    if twin is not None and compare(lang.run_jl(twin, calls), expected, n, scales) is None:
                         mech = "C07-julia-templates"
                         counters["julia_repair_twin_agrees"] = counters.get("julia_repair_twin_agrees", 0) + 1
                         counters["executed:jl(repaired twin)"] = counters.get("executed:jl(repaired twin)", 0) + len(calls)
@@ -156,18 +158,18 @@ def _run_case(case: dict) -> dict:
                     mech = None
             viols.append(core.viol(f"emitted code is not well-formed / callable [{lg}]", mech, language=tag, error=str(e)[:400], code=code[:900], **ctx))
             continue
-        v = compare(got, expected, n)
+        v = compare(got, expected, n, scales)
         counters[f"executed:{lg}"] = counters.get(f"executed:{lg}", 0) + len(calls)
         if v:
             viols.append(core.viol(f"generated function returns different values from the model [{lg}]", None, language=tag, **v, code=code[:900], **ctx))
     if rs_jobs:
         res = lang.run_rs([j[2] for j in rs_jobs], [j[3] for j in rs_jobs], work)
-        for (tag, _fp, code, calls, expected), r in zip(rs_jobs, res):
+        for (tag, _fp, code, calls, expected, scales), r in zip(rs_jobs, res):
             if isinstance(r, str):
                 viols.append(core.viol("emitted code is not well-formed / callable [rs]", mech_wf("rs", r, code), language=tag, error=r[:500], code=code[:900], **ctx))
                 continue
             counters["executed:rs"] = counters.get("executed:rs", 0) + len(calls)
-            v = compare(r, expected, n)
+            v = compare(r, expected, n, scales)
             if v:
                 viols.append(core.viol("generated function returns different values from the model [rs]", None, language=tag, **v, code=code[:900], **ctx))
     hostile = {"untouched_variable", "single_variable", "dependent_declared_first", "ia_parameter", "integer_coefficient", "state_dependent_coefficient", "conditional", "computed_coefficient"}
@@ -183,13 +185,21 @@ def _run_case(case: dict) -> dict:
                        sample={"features": feats, "free_parameters": free, "order": [p[0] for p in plan]} if case.get("idx", 0) < 3 else None)
 
 
-def compare(got: list[list[float]], expected: list[list[float]], n: int) -> dict | None:
-    for g, e in zip(got, expected):
+def compare(got: list[list[float]], expected: list[list[float]], n: int, scales: list[list[float]] | None = None) -> dict | None:
+    """Each derivative within 1e-9 of the magnitude of the terms it is made of (core.term_scales): relative scrutiny at
+    every order of magnitude, robust against cancellation."""
+    import math
+
+    for i, (g, e) in enumerate(zip(got, expected)):
         if len(g) != n:
             return {"problem": "wrong number of derivatives", "got": g, "expected": e}
-        for a, b in zip(g, e):
-            if not core.close(a, b, 1e-9, 1e-12):
-                return {"problem": "value differs", "got": g, "expected": e}
+        for j, (a, b) in enumerate(zip(g, e)):
+            if scales is None:
+                ok = core.close(a, b, 1e-9, 1e-12)
+            else:
+                ok = math.isfinite(float(a)) and abs(float(a) - float(b)) <= 1e-9 * max(scales[i][j], abs(float(b))) + 1e-300
+            if not ok:
+                return {"problem": "value differs", "got": g, "expected": e, "term_magnitudes": None if scales is None else scales[i]}
     return None
 
 
